@@ -248,4 +248,50 @@ theorem runAll_record_stays (w : Write) (k : Bytes) (s : Store) (cs : List Cmd) 
     (fun _ h => h) (fun _ _ _ h1 h2 h => h2 (h1 h))
     (fun _ _ _ _ hst hgd => hst.record_stays w hgd) s cs hs hok hg hw
 
+/-! ### GC keeps everything above the safe point; a finished key is not locked by its transaction -/
+
+theorem gcDropped_sp (ws : List Write) (sp : TS) (kn : Bool) : ∀ c ∈ gcDropped ws sp kn, c ≤ sp := by
+  induction ws generalizing kn with
+  | nil => intro c hc; cases hc
+  | cons w rest ih =>
+    intro c hc
+    simp only [gcDropped] at hc
+    split at hc
+    · exact ih kn c hc
+    · rename_i hle
+      have hle' : w.commitTS ≤ sp := Nat.le_of_not_lt hle
+      split at hc
+      · rw [List.mem_append] at hc
+        cases hc with
+        | inl h =>
+          split at h
+          · simp at h; omega
+          · cases h
+        | inr h => exact ih false c h
+      · cases hc with
+        | head => exact hle'
+        | tail _ h => exact ih kn c h
+
+/-- a GC step removes no record above its safe point -/
+theorem KStep.gc_keeps_above {e e' : Entry} {sp : TS} (h : KStep e (.gc sp) e') (w : Write) (hw : w ∈ e.writes)
+    (habove : sp < w.commitTS) : w ∈ e'.writes := by
+  cases h with
+  | gc k sp =>
+    rw [gcWrites_eq, foldl_entryAct_delWrites, foldl_delWrite]
+    simp only [applyDels, List.mem_filter, Bool.not_eq_eq_eq_not, Bool.not_true]
+    refine ⟨hw, ?_⟩
+    cases hc : (gcDropped e.writes sp true).contains w.commitTS with
+    | false => rfl
+    | true =>
+      have := gcDropped_sp e.writes sp true w.commitTS (by simpa using hc)
+      omega
+
+/-- C06 at the store: in a state satisfying the invariant, a key on which the transaction already has its commit
+    record or rollback marker is not locked by that transaction -/
+theorem finished_key_not_locked (e : Entry) (hi : EInv e) (T : TS) (hrec : ∃ w ∈ e.writes, w.startTS = T) :
+    ∀ l, e.lock = some l → l.startTS ≠ T := by
+  intro l hl heq
+  obtain ⟨w, hw, hT⟩ := hrec
+  exact hi.lockFresh l hl w hw (by rw [heq]; exact hT)
+
 end CGV.Mvcc
